@@ -62,3 +62,11 @@ add("C19","exploration",
     "Held, apart from six listed known findings, on every statement produced: grammar-generated statements with relation slots over listed/unlisted/substring/alias-only names x 8 spellings x ~20 positions at library level, and 11 positions x 10 spellings on the wire over simple and extended protocol, inside and outside transactions, with plugins on and off; denied statements never reach a mock and get the permission error; intercept rules return exactly the configured rows.",
     "Trusted: generator labels; PostgreSQL identifier folding rules as encoded in the generator; mixed multi-statement messages for intercept are don't-care. Known findings: DROP TABLE / GRANT / COMMENT ON positions, FROM ONLY and statements hidden behind SHOW / COPY FROM STDIN (parser limitations).",
     "runtime monitoring: generated-input oracle on execute_plugins + mock log / client replies", "DESIGN.md 5 C19")
+add("C14","exploration",
+    "Held on every reload produced: 11 old/new config variants x 3 triggers (admin RELOAD, SIGHUP, autoreload), several repetitions each, with looping clients on every pool, a transaction straddling the reload per pool and late clients of added pools; judged by the generation label of the mock serving each tagged statement relative to the end of the reload, by session-close events of unchanged pools and by SHOW CONFIG / SHOW DATABASES before/after for invalid files.",
+    "Trusted: reload.end hook event / RELOAD reply as the 'afterwards' anchor; validate_config=false in generated files; general-only changes are only checked for not disturbing pools.",
+    "runtime monitoring: generation-labelled mocks + happens-before on reload completion", "DESIGN.md 5 C14")
+add("C15","exploration",
+    "Held on every generated configuration (800 quick / 8000 thorough, one fresh pgcat each): files with a listed unservable defect are rejected at start-up; every accepted file passes a servability sweep (every selectable shard x role x user, default shard, admin commands incl. BAN/UNBAN) against mocks labelled pool.shardkey.role without panics, refusals or misrouting.",
+    "Trusted: the generator's defect classes for its own bounded grammar; acceptance is judged at start-up (reload acceptance is covered by C14's invalid variants).",
+    "runtime monitoring: accept/reject vs generator class + servability sweep on labelled mocks", "DESIGN.md 5 C15")
